@@ -104,7 +104,7 @@ static void check_case(vg::Src& s, vh::Ctx& c)
         o.valid_only = !s.chance(110);  // ~43% of the cases may carry a rejected configuration
         o.max_side = c.arg > 0 ? static_cast<size_t>(c.arg) : 9;
         o.profile_max = 24;
-        o.large_side = o.max_side > 12 ? 400 : 160;  // ~3 % large grids (size-dependent index arithmetic)
+        o.large_side = o.max_side > 12 ? 260 : 160;  // ~3 % large grids (size-dependent index arithmetic)
         sp = vg::gen_grid(s, o);
     }
     vm::ModelGrid m = vm::build_model(sp);
